@@ -23,7 +23,7 @@ import types
 from sim import core, repo, world
 from sim.core import OK, VIOLATION, DISCARD, sub_rng
 
-STEP_BUDGET = 120_000
+STEP_BUDGET = 60_000
 OBS_LIMIT = 60
 
 COPY_OPS = [":", "D", "Ḃ", "→a", "←a", "→b", "←b", "£", "¥", "⅛", "¾", "W", "\"", "w", "?", "$", "Ȯ", "^", "_"]
@@ -56,7 +56,7 @@ class C10(core.Check):
     id = "C10"
     title = "Values are immutable: no element changes a value another reference can see"
     tiers = {
-        "quick": dict(runs=20_000, batch=250, wall=85, batch_timeout=900),
+        "quick": dict(runs=40_000, batch=400, wall=85, batch_timeout=900),
         "thorough": dict(runs=360_000, batch=500, wall=840, batch_timeout=1800),
     }
     components_real = ["vyxal/elements.py (every key of the element table, minus Q, ¨U, □, ¨…)", "vyxal/helpers.py "
@@ -273,9 +273,17 @@ class C10(core.Check):
                         return fail("mutated", r, "an eager list changed in place", now, r.eager_snap, culprit)
             return None
 
+        def trunc(v):
+            # lazy observations are cut at OBS_LIMIT items per level; cut eager snapshots the same way
+            if isinstance(v, list):
+                if len(v) == 2 and v[0] == "L" and isinstance(v[1], int):
+                    return v
+                return [trunc(x) for x in v[:OBS_LIMIT]]
+            return v
+
         def observe(r, culprit):
             try:
-                got = tm(r.obj)
+                got = trunc(tm(r.obj))
             except (world.StepBudgetExceeded, world.ValueTooBig, WallTimeout):
                 raise
             except Exception as e:
@@ -284,6 +292,7 @@ class C10(core.Check):
             if want is None or self.has_lazy(want):
                 classes[r.cls] = got
                 return None
+            want = trunc(want)
             if got != want:
                 return fail("changed", r, "a reference denotes a different value than before", got, want, culprit)
             return None
@@ -320,7 +329,7 @@ class C10(core.Check):
         def guarded(fn):
             nonlocal steps
             world.CLOCK.start(budget=max(1000, STEP_BUDGET - steps))
-            signal.setitimer(signal.ITIMER_REAL, 4.0)
+            signal.setitimer(signal.ITIMER_REAL, 2.0)
             try:
                 with world.rec_limit():
                     return fn(), None
